@@ -148,12 +148,12 @@ Proof.
 Qed.
 
 (* a key shorter than two bytes is never in a scope built by Add, so no permission is granted *)
-Lemma keys_add_all_short decls m k p :
+Lemma keys_add_all_short decls m (k : key) (p : perm) :
   keys_add_all ∅ decls = Some m -> (length k < 2)%nat -> p <> 0 -> keys_has m k p = false.
 Proof.
   intros H Hk Hp. destruct (keys_add_all_spec _ _ _ H) as (_ & H2 & _).
   unfold keys_has. destruct (m !! k) as [q|] eqn:E.
-  - assert (Hsome : is_Some (m !! k)) by (rewrite E; eauto).
+  - assert (Hsome : is_Some (m !! k)) by (exists q; exact E).
     destruct (H2 k Hsome) as [Hs|Hv].
     + rewrite lookup_empty in Hs. destruct Hs as [? Hs]. discriminate Hs.
     + unfold valid in Hv. apply Nat.leb_le in Hv. lia.
@@ -216,9 +216,9 @@ Qed.
 Lemma chunks_nonneg_mono a b : (0 <= a <= b)%Z -> (chunks_nonneg a <= chunks_nonneg b)%Z.
 Proof.
   intros H. unfold chunks_nonneg.
-  destruct (a =? 0)%Z eqn:Ea, (b =? 0)%Z eqn:Eb; try lia.
-  - assert (0 <= b / 64)%Z by (apply Z.div_pos; lia). lia.
-  - assert (a / 64 <= b / 64)%Z by (apply Z.div_le_mono; lia). lia.
+  assert (0 <= b / 64)%Z by (apply Z.div_pos; lia).
+  assert (a / 64 <= b / 64)%Z by (apply Z.div_le_mono; lia).
+  destruct (a =? 0)%Z eqn:Ea, (b =? 0)%Z eqn:Eb; lia.
 Qed.
 
 Lemma chunks_nonneg_bounds l : (0 <= l)%Z ->
